@@ -408,7 +408,7 @@ def run(tier, seed):
         tasks.append((task_update_lemma, (n, m, tier, seed)))
     for n in (1, 2, 3, 4):
         tasks.append((task_gate, (n, tier, seed)))
-    for p in [CP.P2(), CP.P1(), CP.P13(), CP.P16()] + ([] if tier == "quick" else [CP.P8()]):
+    for p in [CP.P2(), CP.P1(), CP.P13(), CP.P16(), CP.P17()] + ([] if tier == "quick" else [CP.P8(), CP.P19(), CP.P20()]):
         tasks.append((task_history, (p, tier, seed)))
     for p in [CP.P13(), CP.P2()] + ([] if tier == "quick" else [CP.P3(), CP.P8()]):
         tasks.append((task_cpp_symmetry, (p, tier, seed)))
